@@ -74,9 +74,55 @@ BadWrites(pid, r, oldp) ==
                   /\ ~(ws[j].old = "error" /\ ws[j].new = "running"
                        /\ before(ws[j].t) + earlier(j) = 0) } }
 
+(* the store's image against the live process (C11): the keys of the tasks   *)
+(* whose row is missing or differs (state, predecessor, error, data, start  *)
+(* and end time presence), plus "proc" markers for the process row           *)
+ImageDiff(pid, r) ==
+  LET lp == r.post.procs[pid]
+      rw == r.post.rows[pid]
+      row(k) == { rw.tasks[i] : i \in { j \in DOMAIN rw.tasks : rw.tasks[j].k = k } }
+      same(x, y) == /\ x.st = y.st /\ x.prev = y.prev /\ x.err = y.err /\ x.data = y.data
+                    /\ x.hasStart = y.hasStart /\ x.hasEnd = y.hasEnd
+      live == { lp.tasks[i].k : i \in DOMAIN lp.tasks }
+  IN { lp.tasks[i].k : i \in { j \in DOMAIN lp.tasks :
+                                 ~\E y \in row(lp.tasks[j].k) : same(lp.tasks[j], y) } }
+     \cup { rw.tasks[i].k : i \in { j \in DOMAIN rw.tasks : rw.tasks[j].k \notin live } }
+     \cup (IF rw.proc.exists /\ rw.proc.ps = lp.ps /\ rw.proc.perr = lp.perr /\ rw.proc.env = lp.env
+           THEN {} ELSE {<<"proc-row", 0>>})
+
 LoadProc(pid, r, oldp) ==
   LET lp == r.post.procs[pid] IN
-  IF ~lp.cached THEN oldp
+  IF ~lp.cached
+  THEN \* no live image (evicted, or removed after its terminal event): what this step did is
+       \* still known from its probes - the last write per task, the events generated
+       LET tws == SelectSeq(r.ws, LAMBDA w : w.kind # "proc" /\ w.pid = pid)
+           pws == SelectSeq(r.ws, LAMBDA w : w.kind = "proc" /\ w.pid = pid)
+           lastw(k) == LET mine == SelectSeq(tws, LAMBDA w : w.t = k) IN
+                       IF mine = <<>> THEN "-" ELSE mine[Len(mine)].new
+           starts == Count(r.gens, LAMBDA g : g.what = "start" /\ g.pid = pid)
+           comps == Count(r.gens, LAMBDA g : g.what = "complete" /\ g.pid = pid)
+           errs == Count(r.gens, LAMBDA g : g.what = "error" /\ g.pid = pid)
+           cntc(k) == Count(r.gens, LAMBDA g : g.what = "message" /\ g.pid = pid /\ g.t = k /\ g.state = "created")
+           cntt(k) == Count(r.gens, LAMBDA g : g.what = "message" /\ g.pid = pid /\ g.t = k /\ IsDone(g.state))
+       IN
+       [oldp EXCEPT
+          !.ts = IF oldp.st = "absent" THEN <<>>
+                 ELSE [k \in DOMAIN oldp.ts |->
+                         [oldp.ts[k] EXCEPT !.st = IF lastw(k) = "-" THEN @ ELSE lastw(k),
+                                            !.mcre = SatAdd(@, cntc(k)), !.mterm = SatAdd(@, cntt(k))]],
+          !.ps = IF pws = <<>> THEN @ ELSE pws[Len(pws)].new,
+          !.ev = IF oldp.st = "absent" THEN [start |-> 0, term |-> 0, kinds |-> {}, first |-> NIL]
+                 ELSE [start |-> SatAdd(@.start, starts), term |-> SatAdd(@.term, comps + errs),
+                       kinds |-> @.kinds \cup (IF comps > 0 THEN {"complete"} ELSE {})
+                                         \cup (IF errs > 0 THEN {"error"} ELSE {}),
+                       first |-> IF @.first # NIL THEN @.first
+                                 ELSE IF comps + errs = 0 THEN NIL
+                                 ELSE SelectSeq(r.gens, LAMBDA g : g.pid = pid /\ g.what \in {"complete", "error"})[1].what],
+          !.dirty = {},
+          !.pure = @ /\ ~(r.a = "Act" /\ r.pid = pid /\ r.res = "ok" /\ r.kind # "complete"),
+          !.gone = IF oldp.st = "absent" THEN FALSE ELSE ~r.post.rows[pid].proc.exists /\ oldp.ts # <<>>,
+                    !.rowsLeft = [proc |-> r.post.rows[pid].proc.exists, tasks |-> Len(r.post.rows[pid].tasks),
+                                  open |-> Len(SelectSeq(r.post.rows[pid].tasks, LAMBDA x : ~IsDone(x.st)))]]
   ELSE LET oldts == IF oldp.st = "absent" THEN <<>> ELSE oldp.ts
            keys == { lp.tasks[i].k : i \in DOMAIN lp.tasks }
            rec(k) == lp.tasks[CHOOSE i \in DOMAIN lp.tasks : lp.tasks[i].k = k]
@@ -96,11 +142,16 @@ LoadProc(pid, r, oldp) ==
                                ELSE LET te == SelectSeq(r.gens, LAMBDA g : g.pid = pid /\ g.what \in {"complete", "error"})
                                     IN IF te = <<>> THEN NIL ELSE te[1].what],
              !.viol = @ \cup BadWrites(pid, r, oldp),
+             !.dirty = ImageDiff(pid, r),
+             !.gone = FALSE,
+             !.rowsLeft = [proc |-> r.post.rows[pid].proc.exists, tasks |-> Len(r.post.rows[pid].tasks),
+                           open |-> Len(SelectSeq(r.post.rows[pid].tasks, LAMBDA x : ~IsDone(x.st)))],
              !.pure = @ /\ ~(r.a = "Act" /\ r.pid = pid /\ r.res = "ok" /\ r.kind # "complete")]
 
 FreshProc(mi, inp) ==
   [st |-> "started", mi |-> mi, inp |-> inp, ts |-> <<>>, ps |-> "none", perr |-> NIL,
-   nseq |-> 1, ev |-> [start |-> 0, term |-> 0, kinds |-> {}, first |-> NIL], viol |-> {}, pure |-> TRUE]
+   nseq |-> 1, ev |-> [start |-> 0, term |-> 0, kinds |-> {}, first |-> NIL], viol |-> {}, pure |-> TRUE,
+   dirty |-> {}, gone |-> FALSE, cached |-> TRUE, rowsLeft |-> [proc |-> FALSE, tasks |-> 0, open |-> 0]]
 
 KeyOrNo(r) == IF "t" \in DOMAIN r THEN r.t ELSE NoKey
 
